@@ -11,13 +11,16 @@ from vmstate import St, snapshot_vm, run_real  # noqa: E402
 
 PID = "C02"
 TARGETS = ["Properties/C02.vo"]
-MODEL_TARGETS = ["Model/InstrOf.vo", "Model/Run.vo", "Lib/Enc.vo", "Spec/Wf.vo"]
+MODEL_TARGETS = ["Model/InstrOf.vo", "Model/Run.vo", "Lib/Enc.vo", "Spec/Wf.vo", "Model/Session.vo", "Model/ExprEnc.vo",
+                 "Proofs/C11_Hyps.vo"]
 ASSUMPTIONS = [
     "programs shorter than 65536 instructions (so pc+1 is a word), data segment within 2**16 cells "
     "(the checker's 'past the end of available memory' error), no user __eval",
     "registers/memory hold ints in the model (a bool or str stored there would be a ModelError "
     "disagreement in the correspondence, not a theorem violation)",
-    "debugger command histories (assign/execute/on/off/goto) are covered by C13/C14's model, not here yet",
+    "debugger command histories: the state-writing commands are proved to preserve well-formedness on "
+    "Model/Session.v (tied to the real shell by the session correspondence of C11-C14 and here), register "
+    "assignment only for values that are 16-bit words (finding D9: negative values are stored unreduced)",
 ]
 TRUSTED = ["coq/Model/Run.v (interpreter loop; skeleton shape-checked by the translator, behaviour by "
            "whole-program differential runs)", "coq/Spec/Wf.v (the well-formedness predicate)"]
@@ -59,6 +62,61 @@ def run_verdict(prog, r):
     return wf_snapshot(r)
 
 
+def debugger_histories(rng, n, spec_failures, dist):
+    """State-writing command histories on the real shell; the well-formedness oracle after every
+    command.  A negative value assigned to a register is finding D9: it is reported as such and the
+    register is then put right so that anything else the history shows is still seen."""
+    import dbgcases as dc
+    import dbgprops as dp
+    kinds = ["assign"] * 5 + ["execute"] * 2 + ["flags"] * 2 + ["goto"] * 2 + ["next"] * 3 + ["continue", "step", "undo",
+                                                                                              "restart", "refused"]
+    sessions = dp.make_sessions(rng, n, lambda k: kinds, sizes=(6, 12, 20))
+    for s in sessions:
+        rs = dc.RealSession(s["text"], s["opts"])
+        dist["debugger_sessions"] += 1
+        for i, (line, term) in enumerate(s["cmds"]):
+            r = rs.command(line)
+            if r["exc"] == "Budget":
+                break
+            dist["debugger_commands"] += 1
+            vm = rs.shell.debugger.vm
+            if r["exc"]:
+                spec_failures.append({"what": "debugger command %r raised %s" % (line, r["exc"]),
+                                      "session": dp.session_json(s), "at": i})
+                break
+            bad = wf_snapshot(snapshot_vm(vm))
+            if bad:
+                neg = [k for k, v in enumerate(vm.registers) if isinstance(v, int) and not isinstance(v, bool) and v < 0]
+                if term.startswith("(CAssign (LReg") and neg and all(
+                        0 <= v < 65536 for k, v in enumerate(vm.registers) if k not in neg):
+                    dist["debugger_negative_register_assignments"] += 1
+                    spec_failures.append({"what": "after debugger command %r: %s" % (line, bad), "known_id": "D9",
+                                          "session": dp.session_json(s), "at": i})
+                    for k in neg:
+                        vm.registers[k] &= 0xFFFF
+                    if wf_snapshot(snapshot_vm(vm)) is None:
+                        continue
+                spec_failures.append({"what": "after debugger command %d %r the machine is ill-formed: %s" % (i, line, bad),
+                                      "session": dp.session_json(s), "at": i})
+                break
+    return sessions
+
+
+def known_replays(ctx, findings):
+    """D9: `r12 = -0xabc` on the real shell (the witness of C02_debugger_assign_negative_refuted)."""
+    import dbgcases as dc
+    out = []
+    for e in findings:
+        if e["id"] != "D9":
+            continue
+        rs = dc.RealSession("SET(R1, 1)\nHALT()\n", {"big_stack": False, "init": [], "warn_return_on": True})
+        for line in e["history"]:
+            rs.command(line)
+        bad = wf_snapshot(snapshot_vm(rs.shell.debugger.vm))
+        out.append((e, bad is not None, bad))
+    return out
+
+
 def init_strings(rng, n):
     regs = ["r0", "R0", "r1", "R15", "sp", "FP", "pc_ret", "rt", "fp_alt", "r16", "r-1", "x", "r01"]
     vals = ["0", "5", "-1", "-32768", "-32769", "65535", "65536", "70000", "0x10", "0xFFFF", "0x10000",
@@ -77,7 +135,8 @@ def correspondence(ctx, model_available=True):
     rng = ctx.rng
     spec_failures = []
     dist = {"exec_cases": 0, "programs": 0, "programs_leaving_at_front": 0, "programs_halting": 0,
-            "throttled": 0, "init_strings": 0, "init_strings_accepted": 0}
+            "throttled": 0, "init_strings": 0, "init_strings_accepted": 0, "debugger_sessions": 0,
+            "debugger_commands": 0, "debugger_negative_register_assignments": 0}
 
     # (a) single instructions from well-formed states: the post-state must be well-formed
     cases = []
@@ -141,13 +200,22 @@ def correspondence(ctx, model_available=True):
                                       "init": t})
                 break
 
+    # (d) debugger histories that write state: oracle on the real shell, and the session model
+    import dbgprops as dp
+    dsessions = debugger_histories(rng, 30 if quick else 400, spec_failures, dist)
+    if model_available:
+        dres = dp.correspondence("C02d", dsessions, True, check_history=False)
+        disagreements += dres["disagreements"]
+        dist["debugger_model_sessions_agree"] = dres["agree"]
+
     return {
-        "cases": len(cases) + len(pcases) + len(strs),
+        "cases": len(cases) + len(pcases) + len(strs) + dist["debugger_commands"],
         "nontrivial": len(nontrivial) + sum(1 for r in impl if "raise" not in r),
         "rule": "single instructions from random well-formed states (all real opcodes), whole programs of "
                 "3..40 operations with relative/register branches that may leave the program at either end, "
                 "CALL/RETURN, data statements, --init lists and throttling, run from dirty machine states; "
-                "--init strings over register spellings x value syntaxes. Oracle on the real machine: "
+                "--init strings over register spellings x value syntaxes; debugger histories over assign/execute/on/off/"
+                "goto/next/continue/step/undo/restart on generated programs. Oracle on the real machine: "
                 "well-formedness predicate after each case, every code[...] index inside the program, no "
                 "exception. A program is non-trivial when it executes at least one instruction.",
         "distribution": dist,
